@@ -71,6 +71,13 @@ def prot_masks(md_off, doc):
     return masks
 
 
+import re as _re
+
+_ESC = _re.compile(r"\\[!-/:-@\[-`{-~]|&(?:#[0-9]{1,7}|#[xX][0-9a-fA-F]{1,6}|[A-Za-z][A-Za-z0-9]{1,31});")
+_KINDS = [("\u00a9", _re.compile(r"\([cC]\)")), ("\u00ae", _re.compile(r"\([rR]\)")), ("\u2122", _re.compile(r"\([tT][mM]\)")),
+          ("\u00b1", _re.compile(r"\+-")), ("\u2026", _re.compile(r"\.{2,}")), ("\u2013\u2014", _re.compile(r"--"))]
+
+
 def record(job):
     preset, mode, quotes, doc = job
     kon, koff = cfgs_for(preset, mode, quotes)
@@ -92,8 +99,17 @@ def record(job):
                 prot = [0] * len(co)
             mi += 1
         toks.append({"text": text, "auto": a[1], "roff": a[2], "ron": b[2], "coff": co, "con": cn, "prot": prot})
+    # source-side bound on the replacements (independent of how the parser tokenises escapes and entities):
+    # per kind, the signs the typographer ADDS cannot outnumber the triggers written LITERALLY in the source
+    lit = _ESC.sub("\x01", doc)
+    ton = "".join(b[3] for b in fon if b[3] is not None)
+    toff = "".join(a[3] for a in foff if a[3] is not None)
+    rw = []
+    if mode != "sq":
+        for sign, pat in _KINDS:
+            rw.append([sum(ton.count(c) for c in sign) - sum(toff.count(c) for c in sign), len(pat.findall(lit))])
     q = mon.options["quotes"]
-    return {"sq": 0 if mode == "rp" else 1, "rp": 0 if mode == "sq" else 1, "q": [C.cps(q[x]) for x in range(4)],
+    return {"rw": rw, "sq": 0 if mode == "rp" else 1, "rp": 0 if mode == "sq" else 1, "q": [C.cps(q[x]) for x in range(4)],
             "toks": toks, "non": len(fon) if len(fon) == len(foff) else -1}, sum(1 for a, b in zip(foff, fon) if a[3] != b[3])
 
 
